@@ -325,3 +325,11 @@ V("C17", "benign_tds_run_gates_merged", "silent", (TDS, "        if self.busted:
 V("C16", "daeint_linsolve_switch_inverted", "violation", (DAEINT, "            if not tds.config.linsolve:", "            if tds.config.linsolve:"), rule="C16.facade")
 V("C16", "benign_daeint_linsolve_positive_form", "silent", (DAEINT, "            if not tds.config.linsolve:\n                inc = tds.solver.solve(tds.Ac, matrix(tds.qg))\n            else:\n                inc = tds.solver.linsolve(tds.Ac, matrix(tds.qg))\n", "            if tds.config.linsolve:\n                inc = tds.solver.linsolve(tds.Ac, matrix(tds.qg))\n            else:\n                inc = tds.solver.solve(tds.Ac, matrix(tds.qg))\n"))
 V("C16", "benign_ccs_unpacked", "silent", (SC, "    ccs = A.CCS\n    size = A.size\n    data = np.array(ccs[2]).ravel()\n    indices = np.array(ccs[1]).ravel()\n    indptr = np.array(ccs[0]).ravel()\n", "    indptr, indices, data = [np.array(x).ravel() for x in A.CCS]\n    size = A.size\n"))
+V("C03", "pattern_constant_value_dropped", "violation", (SYSTEM, "                    vv.extend(val * np.ones_like(row))", "                    vv.extend(np.ones_like(row))"), rule="C03.pattern")
+V("C03", "pattern_rows_cols_exchanged", "violation", (SYSTEM, "            self.dae.store_sparse_ijv(jname, ii, jj, vv)", "            self.dae.store_sparse_ijv(jname, jj, ii, vv)"), rule="C03.pattern")
+V("C03", "pattern_first_model_only", "violation", (SYSTEM, "            for mdl in models.values():\n                for row, col, val in mdl.triplets.zip_ijv(jname):", "            for mdl in list(models.values())[:1]:\n                for row, col, val in mdl.triplets.zip_ijv(jname):"), rule="C03.pattern")
+V("C03", "pattern_gy_diagonal_dropped", "violation", (SYSTEM, "            if jname == 'gy':\n                ii.extend(np.arange(self.dae.m))", "            if jname == 'gx':\n                ii.extend(np.arange(self.dae.m))"), rule="C03.pattern")
+V("C03", "benign_pattern_concatenate", "silent", (SYSTEM, "                    ii.extend(row)\n                    jj.extend(col)\n                    vv.extend(np.zeros_like(row))", "                    ii += list(row)\n                    jj += list(col)\n                    vv += [0.0] * len(row)"))
+V("C02", "args_ii_bound_to_ij_names", "violation", (MODEL, "            'ii_args': self.ii_args,\n            'ij_args': self.ij_args,", "            'ii_args': self.ij_args,\n            'ij_args': self.ii_args,"), rule="C02.consumer")
+V("C02", "args_sns_from_g_names", "violation", (MODEL, "        self.sns_args = [self._input[arg] for arg in self.calls.sns_args]", "        self.sns_args = [self._input[arg] for arg in self.calls.g_args]"), rule="C02.consumer")
+V("C02", "benign_args_tuple_table", "silent", (MODEL, "        for key, val in mapping.items():\n            source = self.calls.__dict__[key]\n            for name in source:\n                val[name] = [self._input[arg] for arg in source[name]]", "        for key in mapping:\n            source = getattr(self.calls, key)\n            for name, args in source.items():\n                mapping[key][name] = [self._input[arg] for arg in args]"))
